@@ -43,8 +43,10 @@ Inductive case :=
      reports them; rej = create_program raised ParameterNotProvidedException; otherwise the usual observation *)
 | CMissing (p : pt) (en : list (N * Qc)) (mm : list (N * option N)) (pnames : list N) (rej : bool) (o : option obs)
   (* round 3: a volatile update judged under the executable guard (nothing reversed, every count >= 1 before and
-     after, Vol.vwok on the model's programs): then the windows MUST be the declared ones under the new counts *)
-| CVolG (p : pt) (en en2 : list (N * Qc)) (mm : list (N * option N)) (ws2 : list window)
+     after, Vol.vwok): then the windows MUST be the declared ones under the new counts.  Round 5: a, b = shape and
+     repetition counts of the IMPLEMENTATION's program before / after the update (the guard is evaluated on the
+     observation, not on the model's programs) *)
+| CVolG (p : pt) (en en2 : list (N * Qc)) (mm : list (N * option N)) (a b : loop) (ws2 : list window)
   (* a case judged on the Python side only (flatten_and_balance / make_compatible: harness py_spec) *)
 | CPyOnly
 | CCrash.
@@ -66,19 +68,36 @@ Fixpoint ms_eqb (a b : list window) : bool :=
   | w :: r => match remove1 w b with Some b' => ms_eqb r b' | None => false end
   end.
 
-(* independent reading of a Loop's windows: the body (own windows, then the children one after the other) is
-   played rep times one after the other *)
+(* independent reading of a hand-built Loop (it has no template; its meaning is defined on the Loop itself): a leaf
+   lasts its waveform (0 without one), an inner node the sum of its children, each times the repetition count; the
+   body (own windows, then the children one after the other) is played rep times one after the other.  Written out
+   here without any Model.v function (only the `loop` datatype and Spec.seq_windows / sumc are shared);
+   C02_loop_windows_additive proves that the model's tiling computes the same. *)
+Fixpoint exec_dur (l : loop) : Qc :=
+  match l with
+  | Loop n wf _ ch =>
+      match ch with
+      | [] => match wf with Some d => d | None => 0 end
+      | _ => sumc (map exec_dur ch)
+      end * natc n
+  end.
+Definition exec_body (l : loop) : Qc :=
+  match l with
+  | Loop _ wf _ ch => match ch with [] => match wf with Some d => d | None => 0 end | _ => sumc (map exec_dur ch) end
+  end.
 Fixpoint exec_windows (l : loop) : list window :=
   match l with
   | Loop n wf ms ch =>
-      seq_windows 0 (repeat (body_of wf (map ldur ch),
-                             ms ++ seq_windows 0 (map (fun c => (ldur c, exec_windows c)) ch)) n)
+      seq_windows 0 (repeat (exec_body l, ms ++ seq_windows 0 (map (fun c => (exec_dur c, exec_windows c)) ch)) n)
   end.
-Fixpoint no_empty (l : loop) : bool :=
+(* what cleanup() may drop (with a DroppedMeasurementWarning): the windows of non-root nodes below which nothing is
+   played.  alive = the node has something to play; prune = the tree without its dead non-root nodes *)
+Fixpoint alive (l : loop) : bool :=
   match l with
-  | Loop _ wf _ ch => match ch with [] => match wf with Some _ => true | None => false end
-                                 | _ => forallb no_empty ch end
+  | Loop _ wf _ ch => match ch with [] => match wf with Some _ => true | None => false end | _ => existsb alive ch end
   end.
+Fixpoint prune (l : loop) : loop :=
+  match l with Loop n wf ms ch => Loop n wf ms (flat_map (fun c => if alive c then [prune c] else []) ch) end.
 
 (* the exception class the code answers a failing check with (KAtomicDur: the waveform constructors raise
    AssertionError or ValueError depending on the class - any class is accepted) *)
@@ -185,13 +204,8 @@ Fixpoint counts_pos (p : pt) (en : env) : bool :=
   | Map pm _ _ b => counts_pos b (menv pm en)
   | Rev b | Single b | Pass b => counts_pos b en
   end.
-Definition vol_guard (p : pt) (en en2 : env) (mm : mmap) : bool :=
-  no_rev p && counts_pos p en && counts_pos p en2 &&
-  match to_program (build p en mm fresh), to_program (buildv p en en2 mm fresh) with
-  | Some a, Some b => vwok a b
-  | _, _ => false
-  end.
-
+Definition vol_guard (p : pt) (en en2 : env) (a b : loop) : bool :=
+  no_rev p && counts_pos p en && counts_pos p en2 && vwok a b.
 Definition check_corr (c : case) : bool :=
   match c with
   | CProg p en mm o => corr_prog p en mm o
@@ -203,7 +217,7 @@ Definition check_corr (c : case) : bool :=
       | Some (l', st) => steps_eqb st steps && Qceqb (ldur l') d1 && ms_eqb (loop_windows l') ws1
       | None => false
       end
-  | CVolG _ _ _ _ _ => true
+  | CVolG _ _ _ _ _ _ _ => true
   | CLoop l d ws wrev wclean dc =>
       Qceqb (ldur l) d && ms_eqb (loop_windows l) ws && Qceqb (ldur (cleanup l)) dc
       && match wrev with Some w => ms_eqb (loop_windows (reverse_loop l)) w | None => true end
@@ -255,12 +269,14 @@ Definition check_spec (c : case) : bool :=
       if rej then negb (provided p en)
       else match o with Some o => if provided p en then spec_prog p en mm o else true | None => false end
   | CFlatM _ _ _ _ _ => true
-  | CVolG p en en2 mm ws2 =>
-      if vol_guard p (env_of en) (env_of en2) (mm_of mm) then ms_eqb (denote p (env_of en2) (mm_of mm)) ws2 else true
+  | CVolG p en en2 mm a b ws2 =>
+      if vol_guard p (env_of en) (env_of en2) a b then ms_eqb (denote p (env_of en2) (mm_of mm)) ws2 else true
   | CLoop l d ws wrev wclean dc =>
-      ms_eqb (exec_windows l) ws && (if no_empty l then Qceqb d dc else true)
+      Qceqb (exec_dur l) d && ms_eqb (exec_windows l) ws
+      && Qceqb d dc                                                                 (* cleanup keeps the duration, always *)
       && match wrev with Some w => ms_eqb (mirror d ws) w | None => true end       (* reversal mirrors about the duration *)
-      && match wclean with Some w => if no_empty l then ms_eqb ws w else true | None => true end
+      (* cleanup keeps every window except those of dead non-root nodes (nothing dropped if there are none) *)
+      && match wclean with Some w => ms_eqb (exec_windows (prune l)) w | None => true end
   | CTrace p en mm tr =>
       (* stack discipline and duration: at the end exactly one builder with exactly its root frame is left, whose
          body lasts what the template says and has children iff the template plays *)
